@@ -68,6 +68,11 @@ def gnorm(g):
             seen = set(l for l, _ in arms)
             arms += [[l, g2] for l, g2 in dflt[0][2] if l not in seen]
             dflt = dflt[0][3]
+        # variants sent to NotYetImplemented one by one are the fallback written out (an exhaustive match has no `_` arm)
+        if dflt is None and any(g2 == [["nyi"]] for _, g2 in arms):
+            dflt = [["nyi"]]
+        if dflt == [["nyi"]]:
+            arms = [[l, g2] for l, g2 in arms if g2 != [["nyi"]]]
         out = [["switch", s[1], sorted(arms, key=lambda x: x[0]), dflt]]
     return out
 
@@ -312,14 +317,21 @@ def run(tier, repo):
     for f in F.hir_fns():
         if f.get("impl_trait_path") == "rusticata_macros::traits::Serialize" and f.get("name") == "serialize":
             slf = f.get("impl_self")
-            b = strip(f["hir"])
-            ok = b["k"] == "call" and path_of(b["f"]) == "cookie_factory::internal::gen_simple" and len(b["args"]) == 2
-            if ok:
-                g, buf = strip(b["args"][0]), strip(b["args"][1])
-                ok = g["k"] == "call" and path_of(g["f"]) == want.get(slf) and len(g["args"]) == 1 and strip(g["args"][0]).get("k") == "local" and strip(g["args"][0])["name"] == "self" \
-                    and buf["k"] == "call" and path_of(buf["f"]) == "alloc::vec::Vec::<T>::new"
+            # what the body runs into a fresh vector must emit what the type's generator emits (on self)
+            ge = GenEv(F)
+            env_ = {}
+            ge.ev.bind_pat(f["params"][0], ["p", "a0"], env_)
+            try:
+                got = ge.run_into_vec(f["hir"], env_)
+            except Exception as ex:
+                got = [["opaque", str(ex)]]
+            ref = G.get(want.get(slf))
+            if ref is None and F.fn(want.get(slf) or "") is not None:
+                ref = GenEv(F).fn_gterm(want[slf])
+            ok = got is not None and ref is not None and json.dumps(gnorm(got)) == json.dumps(gnorm(ref))
             seen += 1
-            rp.check(ok, "SERIALIZE-IMPLS", slf.split("::")[-1].split("<")[0], site(f), "Serialize::serialize of %s is not gen_simple(%s(self), Vec::new())" % (slf, want.get(slf)), why_ok="runs %s on self" % want.get(slf))
+            rp.check(ok, "SERIALIZE-IMPLS", slf.split("::")[-1].split("<")[0], site(f), "Serialize::serialize of %s does not run %s(self) into a fresh vector and return the bytes written" % (slf, want.get(slf)),
+                     found=(gterm_str(got)[:300] if got else None), why_ok="runs %s on self" % want.get(slf))
     rp.floor("serialize_impls", seen, 3)
     # the reader side of the round trip: the parsers that read serializer output back must have the reference grammar
     # (reference writers and reference readers are both written from the same RFC structures, so writer = W_ref and
